@@ -12,6 +12,8 @@ base = json.load(open('/root/.vp/BASELINE.json'))
 want = set(base['stable_pass'])
 fd, out = tempfile.mkstemp(suffix='.xml'); os.close(fd)
 env = dict(os.environ); env.pop('METRIC_LEARN_VERIF', None)
+for _k in ('OMP_NUM_THREADS', 'OPENBLAS_NUM_THREADS', 'MKL_NUM_THREADS'):
+    env.setdefault(_k, '1')     # several baselines may run side by side: no BLAS oversubscription
 cmd = ['/venv/bin/python', '-m', 'pytest', '-q', '-p', 'no:cacheprovider', '--timeout=900',
        '--continue-on-collection-errors', '-n', nproc, '--junitxml=' + out]
 r = subprocess.run(cmd, cwd=repo, env=env, stdout=subprocess.PIPE, stderr=subprocess.STDOUT, text=True)
